@@ -96,6 +96,30 @@ pub fn oneshot(sub: &str, _rest: &[String], out: &mut dyn Write) -> bool {
             }
             true
         }
+        // wrap <path|multi|contents> <wrap path> <suffix|-> <header> [<second header>] : static-function wrapping through the builder API
+        // (several headers / in-memory contents cannot be expressed on the command line)
+        "wrap" => {
+            let mut b = bindgen::Builder::default().wrap_static_fns(true).wrap_static_fns_path(dec(&_rest[1])).layout_tests(false);
+            if _rest[2] != "-" {
+                b = b.wrap_static_fns_suffix(dec(&_rest[2]));
+            }
+            let h1 = dec(&_rest[3]);
+            b = match _rest[0].as_str() {
+                "contents" => b.header_contents("in_memory.h", &std::fs::read_to_string(&h1).unwrap()),
+                _ => b.header(h1),
+            };
+            if _rest.len() > 4 {
+                let h2 = dec(&_rest[4]);
+                b = if _rest[0] == "contents" { b.header_contents("in_memory_2.h", &std::fs::read_to_string(&h2).unwrap()) } else { b.header(h2) };
+            }
+            std::panic::set_hook(Box::new(|_| {}));
+            match std::panic::catch_unwind(std::panic::AssertUnwindSafe(|| b.generate())) {
+                Ok(Ok(x)) => writeln!(out, "OK {}", enc(&x.to_string())).unwrap(),
+                Ok(Err(e)) => writeln!(out, "ERR {}", enc(&e.to_string())).unwrap(),
+                Err(_) => writeln!(out, "PANIC").unwrap(),
+            }
+            true
+        }
         // tokens : stdin lines = percent-encoded Rust source; prints its token stream rendering
         "tokens" => {
             use std::io::BufRead;
